@@ -483,7 +483,15 @@ func c09DayFromState(c *vh.Ctx, d *c09DayState, g0 *hermes.GlobalVarsMain, l0 *h
 	}
 	if gA.WUMAS > 0 && ((emerged && gA.WUMAS > g0.WUMAS) || !emerged) {
 		hi := math.Max(wgmax, 0.005)
-		if !(gA.WUGEH >= 0.005*(1-1e-9) && gA.WUGEH <= hi*(1+1e-9)) { // round-off: ZR / K recompute WUGEH from the balance (crop.go:758-760)
+		// round-off: ZR / K recompute WUGEH from the balance (PESUM + SUMPE - (OBMAS+WORG[3])*GEHOB) / WUMAS (crop.go:758-762): the
+		// difference of two numbers of the size of the crop N divided by the root mass — its round-off grows with crop N / root mass
+		// (a generated state with 1e-9 kg/ha of roots showed 5e-9 relative at seed 1 of the thorough tier; magnitude-scaled like
+		// every other tolerance of the search)
+		tolWU := 0.0
+		if beet && finite(gA.PESUM, sumpe, gA.OBMAS, gA.GEHOB) {
+			tolWU = 16 * 2.3e-16 * (math.Abs(gA.PESUM) + math.Abs(sumpe) + math.Abs((gA.OBMAS+gA.WORG[3])*gA.GEHOB)) / gA.WUMAS
+		}
+		if !(gA.WUGEH >= 0.005*(1-1e-9)-tolWU && gA.WUGEH <= hi*(1+1e-9)+tolWU) {
 			viol("wugeh-range", fmt.Sprintf("root N concentration WUGEH = %v outside [0.005, max(WGMAX, 0.005) = %v] after a day with root growth", gA.WUGEH, hi))
 		}
 	}
